@@ -87,7 +87,8 @@ def spell(m, sz, style, nscale=1.0):
     if m["kind"] == "none" and style["q"] == "none":
         Qs = None
     elif style["q"] == "sparse":
-        Qs = sparse.csr_matrix(Q)
+        # square diagonal queries are given in DIA format (what sparse.eye / sparse.diags produce), the others as CSR
+        Qs = sparse.dia_matrix(Q) if (Q.shape[0] == Q.shape[1] and np.count_nonzero(Q - np.diag(np.diagonal(Q))) == 0) else sparse.csr_matrix(Q)
     elif style["q"] == "operator":
         Qs = aslinearoperator(sparse.csr_matrix(Q))
     else:
